@@ -39,8 +39,21 @@ _learned = {"codes": set(), "names": set()}
 _MISSING = object()
 
 
+# modules of the packages html5lib builds on: state parked there at run time (an attribute set on a minidom class, an entry
+# in webencodings' lookup cache ...) is process-wide state of the library's making just as well
+DEP_MODULES = ("xml.dom", "xml.dom.minidom", "xml.dom.minicompat", "xml.etree.ElementTree", "webencodings", "webencodings.labels",
+               "webencodings.custom")
+
+
 def _is_lib_module(name):
+    if name in DEP_MODULES:
+        return True
     return (name == "html5lib" or name.startswith("html5lib.")) and ".tests" not in name
+
+
+def _owned(modname):
+    """Does a function / class defined in module `modname` belong to the code whose state is tracked?"""
+    return modname.startswith("html5lib") or modname in DEP_MODULES
 
 
 def _copy(obj):
@@ -95,19 +108,22 @@ def snapshot():
     def add_value(v, label):
         """A value bound at module or class level."""
         add_container(v)
-        f = getattr(v, "__func__", v)
+        try:
+            f = getattr(v, "__func__", v)
+        except Exception:       # objects with a __getattr__ of their own (lazy module proxies ...)
+            return
         if isinstance(f, types.FunctionType):
-            if getattr(f, "__module__", "").startswith("html5lib"):
+            if _owned(getattr(f, "__module__", "") or ""):
                 add_function(f, label)
             return
         if isinstance(v, property):
             for g in (v.fget, v.fset, v.fdel):
-                if isinstance(g, types.FunctionType) and getattr(g, "__module__", "").startswith("html5lib"):
+                if isinstance(g, types.FunctionType) and _owned(getattr(g, "__module__", "") or ""):
                     add_function(g, label)
             return
         if hasattr(v, "cache_clear") and callable(getattr(v, "cache_clear", None)):
             clearers.append(v.cache_clear)
-        if (not isinstance(v, _SCALARS + _MUTABLE) and type(v).__module__.startswith("html5lib")
+        if (not isinstance(v, _SCALARS + _MUTABLE) and _owned(type(v).__module__ or "")
                 and isinstance(getattr(v, "__dict__", None), dict)):
             add_namespace("instance", v, vars(v), label)
 
